@@ -176,11 +176,11 @@ func satisfiable(fs []Formula, m map[Atom]int8, budget *int) (bool, map[Atom]int
 
 type entFn struct {
 	elemStores map[types.Object][]ast.Node // S[i] = v statements per local S
-	w       *World
-	root    *Func // outermost declaration (or package-level literal)
-	info    *types.Info
-	assigns map[types.Object][]ast.Node // assignment sites per local object, over the whole root function
-	addrOf  map[types.Object]bool       // locals whose address is taken
+	w          *World
+	root       *Func // outermost declaration (or package-level literal)
+	info       *types.Info
+	assigns    map[types.Object][]ast.Node // assignment sites per local object, over the whole root function
+	addrOf     map[types.Object]bool       // locals whose address is taken
 	// &v used only as a field value of a composite literal
 	addrInLit map[types.Object]bool
 	calls     []*ast.CallExpr // all calls in the root function that are not known to be effect-free
